@@ -1,20 +1,32 @@
-"""Composed validation phase of C12 (growth task "AsCore"): ONE recorded execution of the assembler is validated
-against ALL statement-level machines of the specification at once (spec/AsCore.tla, AsCore_Trace.tla).
+"""Composed validation phase of C12 (growth tasks "AsCore" and "AsCore + symbol table"): ONE recorded execution of the
+assembler is validated against ALL statement-level machines of the specification at once (spec/AsCore.tla,
+AsCore_Trace.tla).
 
 run(rep, bld, tier):
-  * assembles the 201 golden programs with the hook classes file,stmt,emit,sym,diag,line (worker processes),
+  * assembles the 201 golden programs with the hook classes file,stmt,emit,sym,ref,diag,line,split (worker processes),
   * regroups the hook records per source statement (one S event = one Produce_Code execution with the line(s)
-    GetNextLine delivered for it, its diag records, its first sym_def record, its emit/reserve/retract records; in the
-    last pass of a kept file the emitted bytes and, in the PASS event, the code file as parsed by the independent
-    reader vlib/codefile.py).  Regrouping, renaming and interning of line texts only: every comparison is TLC's.
+    GetNextLine delivered for it, its diag records, ALL its sym_def / sym_mod / sym_ref records in order, its
+    emit/reserve/retract records; in the last pass of a kept file the emitted bytes and, in the PASS event, the code
+    file as parsed by the independent reader vlib/codefile.py; the PASS event also carries the definitions
+    AssembleFile_InitPass makes before pass_begin).  Tokenising only: line texts are interned, symbol values are split
+    into (type, integer below 2^30, decimal text beyond), the label field and the arguments of SECTION / ENDSECTION /
+    PUBLIC / GLOBAL / FORWARD / ENUM / NEXTENUM / ENUMCONF / PUSHV / POPV are case-folded the way the run was
+    configured (CASESENSITIVE as the assembler predefines it) and cut at "," / ":" / "[" / "="; nothing is evaluated.
+    Every comparison is TLC's.
   * validates the executions with TLC against AsCore_Trace (CondAsm x AddrBook x Diag/Driver_Trace x CodeWriter stream
-    view x projected MacroProc + the cross-machine claims), several TLC processes side by side,
+    view x projected MacroProc x Symbols + the cross-machine claims), several TLC processes side by side; TLC takes up
+    to 32 consecutive statements in one step (CONSTANT Block) and says how far it got; a rejected execution is
+    validated again statement by statement (Block = 1) to name the rejected event,
   * on a rejection finds the violated claim by re-validating the rejected execution with one claim switched off
-    (CONSTANT Off of AsCore.tla; again TLC decides), and reports it: claims the manual / property C12 state
+    (CONSTANT OffSet / OffAt of AsCore.tla; again TLC decides), and reports it: claims the manual / property C12 state
     definitely (DEFINITE below) as violation, the rest as SPEC-DRIFT,
-  * reports coverage: share of the corpus statements handled by a named action of some machine, per machine.
+  * reports coverage: share of the corpus statements handled by a named action of some machine, per machine
+    (SY = symbol table: label, EQU / SET, other definitions, references, sections, ENUM, PUSHV / POPV).
 A second, small part validates TLC-generated programs (AsCore_Gen: faulty lines, open constructs, macro / REPT /
-EXITM, PHASE, labels) the same way, because the golden programs contain no unexpected error.
+EXITM, PHASE, labels; symbol family: label LX, CX EQU, VX SET, redefinitions, DB VX, SECTION / ENDSECTION / PUBLIC,
+PUSHV / POPV, ENUM / NEXTENUM, also in skipped branches and macro / REPT bodies) the same way, because the golden
+programs contain no unexpected error; they are assembled with -L and the symbol table of the listing is tokenised
+into the FILEEND event (claim FinalTableIsListed).
 """
 import concurrent.futures as cf
 import json
@@ -25,7 +37,7 @@ import time
 from vlib import aslrun, codefile, tlc
 from vlib.common import CheckError, NCPU, Phase, log, rng, scratch
 
-EVENTS = "file,stmt,emit,sym,diag,line"
+EVENTS = "file,stmt,emit,sym,ref,diag,line,split"
 LIM = 2 ** 30
 
 IFOPS = {"IF": "IF", "IFDEF": "IF", "IFNDEF": "IF", "IFUSED": "IF", "IFNUSED": "IF", "IFEXIST": "IF",
@@ -35,16 +47,26 @@ IFOPS = {"IF": "IF", "IFDEF": "IF", "IFNDEF": "IF", "IFUSED": "IF", "IFNUSED": "
 AB_CLASS = {"ORG": "ORG", "RORG": "RORG", "SEGMENT": "SEGMENT", "CPU": "CPU", "PHASE": "PHASE", "DEPHASE": "DEPHASE",
             "SAVE": "SAVE", "RESTORE": "RESTORE", "STRUCT": "STRUCT", "STRUC": "STRUCT", "UNION": "UNION",
             "ENDSTRUCT": "ENDSTRUCT", "ENDSTRUC": "ENDSTRUCT", "ENDS": "ENDSTRUCT", "ENDUNION": "ENDSTRUCT"}
+SY_CLASS = {"SECTION": "SECTION", "ENDSECTION": "ENDSECTION", "PUBLIC": "PUBLIC", "GLOBAL": "GLOBAL",
+            "FORWARD": "FORWARD", "EQU": "EQU", "=": "EQU", "SET": "SET", ":=": "SET", "EVAL": "SET", "ENUM": "ENUM",
+            "NEXTENUM": "NEXTENUM", "ENUMCONF": "ENUMCONF", "PUSHV": "PUSHV", "POPV": "POPV"}
 MC_CLASS = {"MACRO": "MACRO", "IRP": "IRP", "IRPN": "IRPN", "IRPC": "IRPC", "REPT": "REPT", "WHILE": "WHILE",
             "ENDM": "ENDM", "ENDR": "ENDM", "EXITM": "EXITM", "SHIFT": "SHIFT", "SHFT": "SHIFT", "INCLUDE": "INCLUDE"}
+
+LABEL_CONSUMERS = {"=", ":=", "MACRO", "FUNCTION", "LABEL", "SET", "STRUCT", "STRUC", "EQU", "ENDSTRUCT", "ENDS",
+                   "ENDSTRUC", "ENDUNION", "EVAL", "UNION", "REG", "BIT", "SFR", "PORT", "DEFBIT", "YSFR", "XSFR",
+                   "SFRB", "RIV", "LIV", "DEFBITFIELD", "DEFBITB", "DBIT", "SFRBIT"}      # (coverage counting only)
 
 # claims of AsCore.tla that can be switched off for diagnosis, in the order they are tried
 CLAIMS = ["SkippedIsInert", "RecordedIsInert", "IfFamilyIsAddressNeutral", "ErrorLineEmitsNoCode",
           "FailedHandlerNeedsError", "MachineErrorIsReported", "ExitmRestoresEntryDepth", "RejectedHeaderNeedsError",
-          "DeliveredAsRecorded", "TagDepthIsMachineDepth", "LabelValueIsExec", "LastPassImageEqualsFile",
-          "ErrsDeltaIsDiagCount", "OpenConstructsAreReported"]
+          "DeliveredAsRecorded", "TagDepthIsMachineDepth", "LabelValueIsExec", "LabelEntersTable",
+          "RedefinitionIsReported", "DefKindMatchesStatement", "ErrorDefinesNothing", "ConstantIsStable",
+          "SymbolTableFollowsAdder", "RefReadsTable", "SectionStackFollowsManual", "EnumAssignsSequentialValues",
+          "StackIsLifo", "FinalTableIsListed", "LastPassImageEqualsFile", "ErrsDeltaIsDiagCount", "OpenConstructsAreReported"]
 # what property C12 (selection) or the manual state definitely; the others are finer predictions of the model
-DEFINITE = {"SkippedIsInert": "a statement in a branch that is not selected had an effect",
+DEFINITE = {"SkippedIsInert": "a statement in a branch that is not selected had an effect",     # (code, address, message,
+            # symbol definition or modification, section stack, PUSHV stack)
             "RecordedIsInert": "a line stored into a macro / REPT body was assembled while being stored",
             "LabelValueIsExec": "a label did not get the current program counter",
             "LastPassImageEqualsFile": "the code file is not the byte stream emitted in the last pass",
@@ -66,7 +88,112 @@ def _macro_name(text):
     return t.rstrip(":").upper()
 
 
-def regroup(trace, rc, p):
+def _symrec(e):
+    """sym_def / sym_mod / sym_ref hook record -> record of AsCore (value split into type, integer below 2^30,
+    decimal text beyond: TLC's integers have 32 bits)"""
+    v = e.get("val")
+    small = v is not None and abs(v) < LIM
+    return {"k": {"sym_def": "def", "sym_mod": "mod", "sym_ref": "ref"}[e["e"]], "name": e["name"], "sect": e["sect"],
+            "t": e.get("typ", 0), "v": v if small else 0, "x": "" if (v is None or small) else str(v),
+            "chg": bool(e["chg"]), "out": e["out"]}
+
+
+_PLAIN = __import__("re").compile(r"^[A-Za-z_@?][A-Za-z0-9_@?$.]*$")
+
+
+def _plain(name):
+    """a symbol name that is stored as it is written (ChkTmp: not $$name, .name, -, +, /; no {..}, no [section])"""
+    return bool(_PLAIN.match(name))
+
+
+def _qual(text, fold):
+    """section qualifier of PUBLIC x:sect / name[sect] -> record of Symbols.tla (IdentifySection)"""
+    import re
+    q = text.strip()
+    m = re.fullmatch(r"(?i)parent(\d?)", q)
+    if q == "":
+        return {"t": "glob"}
+    if m:
+        return {"t": "parent", "d": int(m.group(1) or 1)}
+    return {"t": "name", "n": fold(q)}
+
+
+def _sy_class(op, args, sed_pre, sed, fold):
+    """class of the statement for the symbol table + its tokenised arguments (no evaluation: names case-folded,
+    `name=value` noticed, a literal increment read); anything the tokeniser cannot render is class OTHER"""
+    import re
+    sc = SY_CLASS.get(op, "OTHER")
+    if sc == "SECTION":
+        return (sc, [fold(args[0])]) if len(args) == 1 and _plain(args[0]) else ("OTHER", [])
+    if sc == "ENDSECTION":
+        if len(args) == 0:
+            return sc, [""]
+        return (sc, [fold(args[0])]) if len(args) == 1 and _plain(args[0]) else ("OTHER", [])
+    if sc in ("PUBLIC", "GLOBAL", "FORWARD"):
+        if sed_pre == 0 or not args:                      # only decoded inside a section
+            return "OTHER", []
+        out = []
+        for a in args:
+            n, sep, q = a.partition(":")
+            if not _plain(n.strip()) or "{" in q:
+                return "OTHER", []
+            out.append({"n": fold(n.strip()), "q": _qual(q, fold) if sep else {"t": "none"}})
+        return sc, out
+    if sc in ("ENUM", "NEXTENUM"):
+        return sc, ["=" in a for a in args]
+    if sc == "ENUMCONF":
+        if args and re.fullmatch(r"\d{1,6}", args[0].strip()):
+            return sc, [int(args[0].strip())]
+        return sc, []
+    if sc in ("PUSHV", "POPV"):
+        if len(args) < 2 or (args[0] and not _plain(args[0])):
+            return "OTHER", []
+        out = []
+        for a in args[1:]:
+            m = re.fullmatch(r"([^\[\]]+)(?:\[([^\[\]]*)\])?", a.strip())
+            if not m or not _plain(m.group(1)):
+                return "OTHER", []
+            out.append({"n": fold(m.group(1)), "q": _qual(m.group(2), fold) if m.group(2) is not None
+                        else {"t": "none"}})
+        return sc, [fold(args[0]), out]
+    return sc, []
+
+
+def _global_symbols(args):
+    """{GLOBALSYMBOLS} / {NOGLOBALSYMBOLS} among the arguments of a MACRO / IRP / REPT / WHILE header"""
+    gs = False
+    for a in args:
+        t = a.strip()
+        if t.startswith("{") and t.endswith("}"):
+            w = t[1:-1].strip().upper()
+            if w == "GLOBALSYMBOLS":
+                gs = True
+            elif w == "NOGLOBALSYMBOLS":
+                gs = False
+    return gs
+
+
+def listed_symbols(text):
+    """symbol table of a listing (-L) -> [{n, s, v}] for the integer symbols (value printed in hex, below 2^30), or
+    None if there is no table.  Entries look like `*NAME :  [SECTION]      1F C |`, two per line."""
+    import re
+    m = re.search(r"^\s*Symbol Table \(\* = unused\):\s*\n\s*-+\s*\n", text, re.M)
+    if not m:
+        return None
+    out = []
+    for ln in text[m.end():].split("\n"):
+        if re.match(r"^\s+\d+ symbols?\s*$", ln):
+            return out
+        if "\f" in ln or " - Page " in ln:
+            return None                                   # a page break inside the table: not tokenised
+        for ent in ln.split("|"):
+            mm = re.match(r"^\s*\*?(\S+) :\s+(?:\[(\S*)\]\s+)?(\S+) (\S)\s*$", ent)
+            if mm and re.fullmatch(r"[0-9A-F]{1,7}", mm.group(3)):
+                out.append({"n": mm.group(1), "s": mm.group(2) or "", "v": int(mm.group(3), 16)})
+    return None
+
+
+def regroup(trace, rc, p, lst=None):
     """-> (events, info) or (None, reason).  events exclude the RESET that separates executions."""
     passes = [e["pass"] for e in trace if e.get("e") == "pass_begin"]
     lastpass = passes[-1] if passes else 0
@@ -85,9 +212,15 @@ def regroup(trace, rc, p):
         cls[k] = cls.get(k, 0) + 1
     cur_pass = 0
     stream = False
-    pre, line, dg, sd, chunks = [], None, [], None, []
+    pre, line, dg, chunks = [], None, [], []
+    sy, psy, split = [], [], None          # symbol records since the line was delivered / before that; split record
+    between = True                         # outside the passes: what AssembleFile_InitPass enters itself
+    casesens = False
     last_stmt = None
-    ifpre, recpre = True, False
+    ifpre, recpre, sedpre = True, False, 0
+
+    def fold(x):
+        return x if casesens else x.upper()
 
     def ln(e):
         t = e["text"]
@@ -103,31 +236,39 @@ def regroup(trace, rc, p):
         if k == "file_begin":
             ev.append({"a": "FILE", "ifasm": e["ifasm"], "ifd": e["ifd"], "tagd": e["tagd"], "rec": e["rec"],
                        "svd": e["svd"], "std": e["std"], "sed": e["sed"]})
+            between = True
+            sy = []
         elif k == "pass_begin":
             cur_pass = e["pass"]
             if e["pc"] >= LIM:
                 return None, "addresses beyond TLC's integers"
             stream = cur_pass == lastpass and parsed is not None
+            for r in sy:
+                if r["name"] == "CASESENSITIVE":
+                    casesens = r["v"] != 0
             pe = {"a": "PASS", "pass": e["pass"], "seg": e["seg"], "pc": e["pc"], "ifasm": e["ifasm"],
                   "cpu": e["cpu"], "last": cur_pass == lastpass, "hasfile": stream, "recs": recs if stream else [],
                   "problems": list(parsed.problems) if stream else [],
-                  "entries": sum(1 for r in parsed.records if r.kind == "entry") if stream else 0}
+                  "entries": sum(1 for r in parsed.records if r.kind == "entry") if stream else 0,
+                  "sy": [r for r in sy if r["k"] == "def"]}
             ev.append(pe)
-            pre, line, dg, sd, chunks = [], None, [], None, []
+            pre, line, dg, chunks = [], None, [], []
+            sy, psy, split = [], [], None
+            between = False
             last_stmt = None
-            ifpre, recpre = True, False
+            ifpre, recpre, sedpre = True, False, 0
+        elif k in ("sym_def", "sym_mod", "sym_ref"):
+            sy.append(_symrec(e))
         elif cur_pass == 0:
-            continue                      # definitions of the predefined symbols (before the first pass)
+            continue
         elif k == "line":
             if line is not None:
                 pre.append(strip(line))   # delivered, but never became a statement (preprocessor line)
             line = ln(e)
-            sd = None
-        elif k == "sym_def":
-            if sd is None:
-                v = e.get("val")
-                big = v is not None and abs(v) >= LIM
-                sd = {"v": 0 if (v is None or big) else v, "chg": e["chg"], "int": v is not None, "big": big}
+            psy += sy                     # written while the line was being fetched (WHILE evaluates its condition)
+            sy = []
+        elif k == "split":
+            split = e
         elif k == "diag":
             dg.append({"num": e["num"], "cls": e["cls"], "errs": e.get("errs", 0), "warns": e.get("warns", 0)})
         elif k == "emit":
@@ -157,16 +298,22 @@ def regroup(trace, rc, p):
                 ca = "EXITM"
             else:
                 ca = "OTHER"
-            skip = (not e["ifasm"]) or e["rec"] or e["wasmac"] or e["wasif"]
+            skip = (not e["ifasm"]) or e["rec"] or e["wasmac"] or e["wasif"] or recpre
             cb = "OTHER" if skip else AB_CLASS.get(op, "OTHER")
             mc = MC_CLASS.get(op, "OTHER")
             here = line if line is not None else {"nl": True, "tx": 0, "dp": 0, "em": False, "_t": ""}
+            args = [a["a"] for a in (split or {}).get("args", [])]
+            lab = (split or {}).get("lab", "")
+            sc, sa = ("OTHER", []) if skip else _sy_class(op, args, sedpre, e["sed"], fold)
             s = {"a": "S", "pre": pre, "nl": here["nl"], "tx": here["tx"], "dp": here["dp"], "em": here["em"],
                  "op": op, "argc": e["argc"], "lab": bool(e["lab"]), "wm": bool(e["wasmac"]), "ca": ca, "cb": cb,
                  "mc": mc, "nm": _macro_name(here["_t"]) if mc == "MACRO" else "",
+                 "gsym": _global_symbols(args) if mc != "OTHER" else False,
                  "ifasm": bool(e["ifasm"]), "stk": e["ifs"], "rec": bool(e["rec"]), "tagd": e["tagd"],
                  "errs": e["errs"], "seg": e["seg"], "pc": e["pc"], "ph": e["ph"], "phd": e["phd"], "svd": e["svd"],
-                 "std": e["std"], "len": e["len"], "cpu": e["cpu"], "dg": dg, "sd": [sd] if sd is not None else [], "ch": chunks}
+                 "std": e["std"], "sed": e["sed"], "len": e["len"], "cpu": e["cpu"], "dg": dg, "ch": chunks,
+                 "sy": sy, "psy": psy, "lbn": fold(lab) if _plain(lab) else "",
+                 "q": "[" in (split or {}).get("raw", ""), "sc": sc, "sa": sa}
             ev.append(s)
             # coverage classes (counting only): which machine has a named action for this statement
             named = []
@@ -186,8 +333,24 @@ def regroup(trace, rc, p):
                 named.append("DG:diagnostic")
             if stream and any(c["k"] == "E" for c in chunks):
                 named.append("CW:stream")
-            if e["lab"] and sd is not None and sd["int"] and sd["chg"] == 0 and ifpre and not recpre:
-                named.append("LB:label")
+            ndef = sum(1 for r in sy if r["k"] == "def")
+            labelled = bool(e["lab"]) and ifpre and not recpre and op not in LABEL_CONSUMERS and ndef > 0
+            if labelled:
+                named.append("SY:label")
+            if sc in ("EQU", "SET") and ndef:
+                named.append("SY:" + sc.lower())
+            elif sc in ("SECTION", "ENDSECTION", "PUBLIC", "GLOBAL", "FORWARD"):
+                named.append("SY:section")
+            elif sc in ("ENUM", "NEXTENUM", "ENUMCONF"):
+                named.append("SY:enum")
+            elif sc in ("PUSHV", "POPV"):
+                named.append("SY:stack")
+            elif ndef > (1 if labelled else 0):
+                named.append("SY:definition")            # made by another handler (BIT, SFR, STRUCT, CPU ...)
+            if any(r["k"] == "ref" and r["out"] != "unknown" for r in sy + psy):
+                named.append("SY:reference")
+            if any(r["k"] == "mod" for r in sy):
+                named.append("SY:label-moved")
             if not ifpre and not e["ifasm"] and ca == "OTHER" and not recpre:
                 named.append("CA:skipped")
             for n in named:
@@ -196,8 +359,9 @@ def regroup(trace, rc, p):
             for m in sorted(set(n.split(":")[0] for n in named)):
                 count("machine:" + m)
             last_stmt = e
-            ifpre, recpre = bool(e["ifasm"]), bool(e["rec"])
-            pre, line, dg, sd, chunks = [], None, [], None, []
+            ifpre, recpre, sedpre = bool(e["ifasm"]), bool(e["rec"]), e["sed"]
+            pre, line, dg, chunks = [], None, [], []
+            sy, psy, split = [], [], None
         elif k == "pass_end":
             if line is not None:
                 pre.append(strip(line))
@@ -213,13 +377,42 @@ def regroup(trace, rc, p):
                            "sed": 1 if last_stmt["sed"] else 0})
             ev.append({"a": "PASSEND", "pass": e["pass"], "repass": e["repass"], "errs": e["errs"],
                        "warns": e["warns"], "ifd": e["ifd"], "tagd": e["tagd"]})
+            sy, psy = [], []
+            between = True
         elif k == "file_end":
             ev.append({"a": "FILEEND", "passes": e["passes"], "errs": e["errs"], "warns": e["warns"],
-                       "kept": e["kept"]})
+                       "kept": e["kept"], "haslst": lst is not None, "lst": lst or []})
     if dg:
         ev.append({"a": "T", "dg": dg})       # the process died inside a statement
     ev.append({"a": "EXIT", "rc": rc if rc is not None else -1, "kept": [p is not None]})
     return ev, cls
+
+
+_NEED_SPLIT_OPS = set(SY_CLASS) | {"MACRO", "IRP", "IRPN", "IRPC", "REPT", "WHILE"}
+_OP_RE = __import__("re").compile(rb'"lab":"((?:[^"\\]|\\.)*)","op":"((?:[^"\\]|\\.)*)"')
+
+
+def read_trace(path):
+    """like vlib.aslrun.read_trace, but a `split` record (one per source line) is only parsed where regroup uses it:
+    a label field, a statement of the symbol table / a header with options, a '[' on the line"""
+    ev = []
+    with open(path, "rb") as f:
+        for line in f:
+            if line.startswith(b'{"e":"split"'):
+                m = _OP_RE.search(line)
+                if m and not m.group(1) and m.group(2).upper().decode("latin-1") not in _NEED_SPLIT_OPS:
+                    a = line.find(b'"raw":"')
+                    b = line.find(b'","div":', a)
+                    if a >= 0 and b >= 0 and b"[" not in line[a:b]:
+                        continue
+            line = line.strip()
+            if not line:
+                continue
+            try:
+                ev.append(json.loads(line.decode("latin-1")))
+            except Exception:
+                ev.append({"e": "garbled", "raw": line[:200].decode("latin-1")})
+    return ev
 
 
 def _dump(ev):
@@ -234,11 +427,14 @@ def _corpus_job(args):
     import shutil
     from vlib.build import Build
     b = Build(bdir, flavour, hooks)
-    res = aslrun.assemble_corpus(b, t, events=EVENTS)
-    shutil.rmtree(res.dir, ignore_errors=True)
-    if res.trace is None:
+    tdir = tempfile.mkdtemp(prefix="c-", dir=scratch())
+    tr = os.path.join(tdir, "trace.ndjson")
+    res = aslrun.assemble_corpus(b, t, env={"ASL_VERIF_TRACE": tr, "ASL_VERIF_EVENTS": EVENTS}, outdir=tdir)
+    trace = read_trace(tr) if os.path.exists(tr) else None
+    shutil.rmtree(tdir, ignore_errors=True)
+    if trace is None:
         return {"name": t[0], "skip": "no trace", "rc": res.rc}
-    ev, info = regroup(res.trace, res.rc, res.p)
+    ev, info = regroup(trace, res.rc, res.p)
     if ev is None:
         return {"name": t[0], "skip": info, "rc": res.rc}
     path = os.path.join(outdir, t[0] + ".ndjson")
@@ -256,7 +452,7 @@ def _program_job(args):
     b = Build(bdir, flavour, hooks)
     out = []
     for (idx, src) in chunk:
-        res = aslrun.assemble(b, {"a.asm": src}, opts=["-q", "-cpu", "z80"], events=EVENTS)
+        res = aslrun.assemble(b, {"a.asm": src}, opts=["-q", "-cpu", "z80", "-L"], events=EVENTS, want=["a.lst"])
         o = {"idx": idx, "rc": res.rc, "sig": res.sig, "timeout": res.timeout, "errs": None, "warns": None,
              "image": None, "events": None}
         for e in res.trace or ():
@@ -266,7 +462,8 @@ def _program_job(args):
             pr = codefile.parse(res.p)
             o["image"] = [[r.start + i, x] for r in pr.data_records() for i, x in enumerate(r.data)]
         if res.trace is not None:
-            ev, info = regroup(res.trace, res.rc, res.p)
+            lst = listed_symbols(res.files["a.lst"].decode("latin-1")) if "a.lst" in res.files else None
+            ev, info = regroup(res.trace, res.rc, res.p, lst)
             if ev is not None:
                 o["events"] = _dump(ev)
                 o["n"] = len(ev)
@@ -277,25 +474,31 @@ def _program_job(args):
 # ----------------------------------------------------------------------------------------------------------------
 # TLC side
 # ----------------------------------------------------------------------------------------------------------------
-_CFG = ("CONSTANTS Segs = {0,1,2,3,4,5,6,7,8,9,10} StructSeg = 11 OffSet = %s OffAt = %d\n"
-        "INIT TInit\nNEXT TNext\nPOSTCONDITION Accepted\nCHECK_DEADLOCK FALSE\n")
+BLOCK = 32      # statements per TLC step in production (AsCore_Trace.cfg); a rejection is located with Block = 1
+_CFG = ("CONSTANTS Segs = {0,1,2,3,4,5,6,7,8,9,10} StructSeg = 11 OffSet = %s OffAt = %d Block = %d\n"
+        "INIT TInit\nNEXT TNext\nVIEW TView\nPOSTCONDITION Accepted\nCHECK_DEADLOCK FALSE\n")
 
 
-def _cfg(off=(), at=0):
-    """production: the static AsCore_Trace.cfg (Off = {}); diagnosis: a temporary cfg with the claims `off` switched
-    off at event number `at` of the trace file (and nowhere else)"""
-    if not off:
+def _cfg(off=(), at=0, block=BLOCK):
+    """production: the static AsCore_Trace.cfg (Off = {}, Block = 32); diagnosis: a temporary cfg with the claims `off`
+    switched off at event number `at` of the trace file (and nowhere else), one statement per step"""
+    if not off and block == BLOCK:
         return "AsCore_Trace.cfg", None
     fd, path = tempfile.mkstemp(prefix="_ascore_", suffix=".cfg", dir=tlc.SPEC)
     with os.fdopen(fd, "w") as f:
-        f.write(_CFG % ("{" + ", ".join('"%s"' % c for c in off) + "}", at))
+        f.write(_CFG % ("{" + ", ".join('"%s"' % c for c in off) + "}", at, block))
     return os.path.basename(path), path
 
 
-def _validate(frags, off=(), at=0, mem="5g", timeout=1500):
+def _validate(frags, off=(), at=0, mem="5g", timeout=1500, block=BLOCK):
     """frags: list of result dicts with path/n.  One TLC run over the concatenation (RESET between executions).
-    -> dict(accepted, fail (index into frags), fail_index, fail_event, states, generated, wall, events)"""
+    -> dict(accepted, fail (index into frags), fail_index, fail_event, states, generated, wall, events).
+    TLC takes up to `block` consecutive statements in one step and reports how far it got (<<"REACHED", n>>: the first
+    event that was not consumed); with block > 1 the rejected execution is validated again statement by statement to
+    name the rejected event."""
     import re
+    if off:
+        block = 1
     fd, path = tempfile.mkstemp(prefix="ascore-", suffix=".ndjson", dir=scratch())
     os.close(fd)
     owner = []
@@ -309,7 +512,7 @@ def _validate(frags, off=(), at=0, mem="5g", timeout=1500):
                 with open(fr["path"]) as f:
                     out.write(f.read())
             owner += [(fi, i) for i in range(fr["n"])]
-    cfgname, cfgpath = _cfg(off, at)
+    cfgname, cfgpath = _cfg(off, at, block)
     try:
         r = tlc.run("AsCore_Trace", cfgname, workers=1, env={"TRACE": path}, mem=mem, timeout=timeout, collect=False,
                     keep_out=True)
@@ -324,7 +527,7 @@ def _validate(frags, off=(), at=0, mem="5g", timeout=1500):
     if r.violation is None and r.error is None:
         os.unlink(path)
         return res
-    m = re.search(r"The depth of the complete state graph search is (\d+)", r.out)
+    m = re.search(r'<<"REACHED", (\d+)>>', r.out)
     if not m:
         os.unlink(path)
         raise CheckError("AsCore_Trace: cannot locate rejection: %s" % r.out[-800:])
@@ -334,6 +537,15 @@ def _validate(frags, off=(), at=0, mem="5g", timeout=1500):
         raise CheckError("AsCore_Trace rejected but consumed everything")
     res["accepted"] = False
     res["fail"], res["fail_index"] = owner[consumed]
+    if block > 1:
+        os.unlink(path)
+        one = _validate([frags[res["fail"]]], mem=mem, timeout=timeout, block=1)
+        if one["accepted"]:
+            raise CheckError("AsCore_Trace: execution %s rejected with Block = %d, accepted with Block = 1"
+                             % (frags[res["fail"]].get("name"), block))
+        res["fail_index"], res["fail_event"] = one["fail_index"], one.get("fail_event")
+        res["wall"] += one["wall"]
+        return res
     with open(path) as f:
         for i, line in enumerate(f):
             if i == consumed:
@@ -436,22 +648,57 @@ def render(prog):
             out.append("mm\tmacro")
         elif k == "CALL":
             out.append("\tmm")
+        elif k == "LBX":
+            out.append("LX:\tdb\t%d" % i)
+        elif k == "EQU":
+            out.append("CX\tequ\t%d" % a)
+        elif k == "SET":
+            out.append("VX\tset\t%d" % a)
+        elif k == "SETC":
+            out.append("CX\tset\t%d" % a)
+        elif k == "USE":
+            out.append("\tdb\tVX")
+        elif k == "SECTION":
+            out.append("\tsection\tS1")
+        elif k == "ENDSECTION":
+            out.append("\tendsection" + ("" if a == 0 else "\tS%d" % a))
+        elif k == "PUBLIC":
+            out.append("\tpublic\tLX")
+        elif k in ("PUSHV", "POPV"):
+            out.append("\t%s\t,VX" % k.lower())
+        elif k == "ENUM":
+            out.append("\tenum\tEA,EB=5,EC")
+        elif k == "NEXTENUM":
+            out.append("\tnextenum\tED,EE")
         else:
             raise CheckError("AsCore_Gen printed an unknown statement %r" % (st,))
     return "\n".join(out) + "\n"
 
 
 def gen_models(tier):
-    """TLC side of the generated part (may run in a helper thread): -> (cfgs, flat, macro family, simulation)"""
+    """TLC side of the generated part (may run in a helper thread): -> (cfgs, flat, macro family, directed, symbol
+    family, simulation); two chains of TLC runs side by side"""
     cfg = "AsCore_Gen.cfg" if tier == "quick" else "AsCore_Gen4.cfg"
     cfgm = "AsCore_GenM.cfg" if tier == "quick" else "AsCore_GenM4.cfg"
-    mc = tlc.run("AsCore_Gen", cfg, workers=4, timeout=1500, mem="6g")
-    mcm = tlc.run("AsCore_Gen", cfgm, workers=4, timeout=1500, mem="6g")
-    mcd = tlc.run("AsCore_Gen", "AsCore_GenD.cfg", workers=1, timeout=600, mem="2g")
+    cfgs = "AsCore_GenS.cfg" if tier == "quick" else "AsCore_GenS4.cfg"
     nsim = 40 if tier == "quick" else 2500
-    sim = tlc.run("AsCore_Gen", "AsCore_Sim.cfg", workers=2 if tier == "quick" else 4, simulate=nsim, depth=70,
-                  timeout=900, mem="4g")
-    return (cfg, cfgm), mc, mcm, mcd, sim
+
+    def chain1():
+        mc = tlc.run("AsCore_Gen", cfg, workers=4, timeout=1500, mem="6g")
+        mcm = tlc.run("AsCore_Gen", cfgm, workers=4, timeout=1500, mem="6g")
+        return mc, mcm
+
+    def chain2():
+        mcs = tlc.run("AsCore_Gen", cfgs, workers=4, timeout=1500, mem="6g")
+        mcd = tlc.run("AsCore_Gen", "AsCore_GenD.cfg", workers=1, timeout=600, mem="2g")
+        sim = tlc.run("AsCore_Gen", "AsCore_Sim.cfg", workers=2 if tier == "quick" else 4, simulate=nsim, depth=70,
+                      timeout=900, mem="4g")
+        return mcs, mcd, sim
+    with cf.ThreadPoolExecutor(max_workers=2) as ex:
+        f1, f2 = ex.submit(chain1), ex.submit(chain2)
+        mc, mcm = f1.result()
+        mcs, mcd, sim = f2.result()
+    return (cfg, cfgm, cfgs), mc, mcm, mcd, mcs, sim
 
 
 def _restore_twice_in_body(prog):
@@ -474,27 +721,31 @@ def generated(rep, bld, tier, models=None):
     """(M)+(G)+(V) on the bounded family of AsCore_MC: TLC checks the forward model against StmtSucc and exports every
     complete behaviour with the outcome it predicts; the programs are rendered, assembled with hooks, the outcome
     is compared and the recorded executions are validated by AsCore_Trace like the golden ones."""
-    (cfg, cfgm), mc, mcm, mcd, sim = models if models is not None else gen_models(tier)
+    (cfg, cfgm, cfgs), mc, mcm, mcd, mcs, sim = models if models is not None else gen_models(tier)
     for what, r in (("AsCore_Gen(%s)" % cfg, mc), ("AsCore_Gen(%s)" % cfgm, mcm), ("AsCore_Gen(AsCore_GenD.cfg)", mcd),
-                    ("AsCore_Gen simulate", sim)):
+                    ("AsCore_Gen(%s)" % cfgs, mcs), ("AsCore_Gen simulate", sim)):
         tlc.must(r, what)
         if r.violation:
             raise CheckError("the composed design violates its own invariants (%s): %s" % (what, r.violation[:600]))
     rep.model("AsCore_Gen(%s)" % cfg, mc)
     rep.model("AsCore_Gen(%s)" % cfgm, mcm)
+    rep.model("AsCore_Gen(%s)" % cfgs, mcs)
     behs = [b for (tag, b) in mc.printed if tag == "BEH"]
     behm = [b for (tag, b) in mcm.printed if tag == "BEH"]
-    nall = len(behs) + len(behm) + len(mcd.printed)
+    behsy = [b for (tag, b) in mcs.printed if tag == "BEH"]
+    nall = len(behs) + len(behm) + len(behsy) + len(mcd.printed)
     if tier == "quick":
         # flat family: every program of up to 2 lines, a seeded fifth of the 3-line programs; macro family: a seeded
         # 40 % (thorough: one line more each; flat: all up to 3 lines + a seeded 35 % of the 4-line programs, macro: all)
         r = rng("ascore-gen")
         behs = [b for b in behs if len(b["prog"]) <= 2 or r.random() < 0.2]
         behm = [b for b in behm if r.random() < 0.4]
-    else:
-        r = rng("ascore-gen")
+        behsy = [b for b in behsy if len(b["prog"]) <= 2 or r.random() < 0.25]     # symbol family: a seeded quarter of
+    else:                                                                          # the 3-line programs (thorough: all
+        r = rng("ascore-gen")                                                      # up to 3 lines, 15 % of the 4-line)
         behs = [b for b in behs if len(b["prog"]) <= 3 or r.random() < 0.35]
-    behs += behm + [b for (tag, b) in mcd.printed if tag == "BEH"]      # + the directed programs (regression seeds)
+        behsy = [b for b in behsy if len(b["prog"]) <= 3 or r.random() < 0.15]
+    behs += behm + behsy + [b for (tag, b) in mcd.printed if tag == "BEH"]   # + the directed programs (regression seeds)
     seen = set(json.dumps(b["prog"]) for b in behs)
     for (tag, b) in sim.printed:
         key = json.dumps(b["prog"])
@@ -514,7 +765,7 @@ def generated(rep, bld, tier, models=None):
     for o in res:
         b, src = behs[o["idx"]], srcs[o["idx"]]
         rep.evaluated()
-        rep.distinct("ascore:" + src, any(st["k"] not in ("EMIT", "LAB") for st in b["prog"]))
+        rep.distinct("ascore:" + src, any(st["k"] not in ("EMIT", "LAB", "LBX") for st in b["prog"]))
         key = {"kind": "ascore-gen", "restore_twice_in_body": _restore_twice_in_body(b["prog"])}
         if o["timeout"] or o["sig"] is not None or o["rc"] not in (0, 2):
             rep.violation("assembler did not end normally (rc=%s signal=%s) on a program of the composed model"
